@@ -2351,7 +2351,10 @@ class SequenceAndSetBase(base.ConstructedAsn1Type):
             return key in self._dynamicNames
 
     def __len__(self):
-        return len(self._componentValues)
+        # the number of keys: one per declared component, whether or
+        # not its slot exists yet (reads create the slots)
+        slots = len(self._componentValues)   # (refused on a schema object)
+        return self._componentTypeLen or slots
 
     def __iter__(self):
         return iter(self.componentType or self._dynamicNames)
